@@ -4,6 +4,7 @@
 //                                      dk = h (HashSet, reserved: full traces) | t | m (TreeSet unique / multi: coarse)
 //   tm <cat> <kind> <dk> <dst> <src>   TreeSet source (single leaf) merged by pvMergeTo (dk = h|t|m, coarse)
 //   lm <cat> <kind> <multi> <dst> <src>  TreeSet::MergeTo(TreeSet&) with default traits and UNEQUAL managers (coarse)
+//   fm <cat> <kind> <multi> <dst> <src>  the same with EQUAL managers: swap / pvMergeFast / loops; dst in iteration order
 //   xi <cat> <kind> <idx> <dst> <b0>   Extract the idx-th item of a one-bucket HashSet, Insert(ExtractedItem&&) into dst
 //   sh <cat> ins|rem <n> <idx> <cnt>   ArrayShifter::InsertNogrow / Remove on a reserved momo::Array
 // For hm/tm/lm/xi/sh the operation is repeated with the k-th step of <kind> failing, k = 0,1,2,... until the
@@ -52,7 +53,7 @@ template<typename Body>
 static std::string enumerate(int kind, Body body)
 {
 	std::vector<std::string> bs;
-	for (long k = 0; k < 400; ++k)
+	for (long k = 0; k < 5000; ++k)
 	{
 		g_fired = false;
 		std::string b = body(kind, k);
@@ -171,14 +172,14 @@ static std::string run_hm(const std::vector<std::string>& w)
 
 // ------------------------------------------------------------------------------------------- tm / lm
 template<typename E, typename Src, typename Dst>
-static std::string run_tm_dst(int kind, const std::vector<int64_t>& dstv, const std::vector<int64_t>& srcv, int srcMgr, int dstMgr)
+static std::string run_tm_dst(int kind, const std::vector<int64_t>& dstv, const std::vector<int64_t>& srcv, int srcMgr, int dstMgr, bool inorder = false)
 {
 	return enumerate(kind, [&] (int kd, long k) -> std::string
 	{
 		std::string out;
 		{
+			Dst dst = Dst(typename Dst::ContainerTraitsAlias(), kit::MM(dstMgr));     // the source is destroyed first
 			Src src = Src(typename Src::ContainerTraitsAlias(), kit::MM(srcMgr));
-			Dst dst = Dst(typename Dst::ContainerTraitsAlias(), kit::MM(dstMgr));
 			dst.reserve_if(dstv.size() + srcv.size() + 20);
 			for (int64_t v : srcv) src.set.Insert(E(v));
 			for (int64_t v : dstv) dst.set.Insert(E(v));
@@ -191,7 +192,7 @@ static std::string run_tm_dst(int kind, const std::vector<int64_t>& dstv, const 
 			kit::W().disarm();
 			kit::W().logging = false;
 			uint64_t nc = 0; for (auto& e : kit::W().log) if (e[0] == 'C' && (e[1] == ' ' || e[1] == 'A') && e[2] != 'o') ++nc;
-			out = st + " src=" + join_sorted(contents(src.set)) + " dst=" + join_sorted(contents(dst.set));
+			out = st + " src=" + join_sorted(contents(src.set)) + " dst=" + (inorder ? join(contents(dst.set)) : join_sorted(contents(dst.set)));
 			if (E::movable) out += std::string(" copies=") + (nc == 0 ? "0" : "SOME");
 			size_t n0 = dst.set.GetCount();
 			dst.set.Insert(E(99999)); if (dst.set.GetCount() != n0 + 1) out += " UNUSABLE";
@@ -215,6 +216,11 @@ static std::string run_tm(const std::vector<std::string>& w)
 	typedef LE<C> E;
 	int kind = kind_of(w[2]);
 	std::vector<int64_t> dstv = ints(w[4]), srcv = ints(w[5]);
+	if (w[0] == "fm")     // equal managers: swap / pvMergeFast / loops; destination printed in iteration order
+	{
+		if (w[3] == "1") return run_tm_dst<E, DstTD<E, true>, DstTD<E, true>>(kind, dstv, srcv, 1, 1, true);
+		return run_tm_dst<E, DstTD<E, false>, DstTD<E, false>>(kind, dstv, srcv, 1, 1, true);
+	}
 	if (w[0] == "lm")
 	{
 		if (w[3] == "1") return run_tm_dst<E, DstTD<E, true>, DstTD<E, true>>(kind, dstv, srcv, 1, 2);
@@ -322,12 +328,145 @@ static std::string run_sh(const std::vector<std::string>& w)
 	});
 }
 
+// ------------------------------------------------------------------------------------------- pm / px (maps)
+//   pm <kc> <vc> <op> <k> <ks> <vs> <km> <vm>   MapKeyValueTraits mechanism on raw buffers: op = reloc | replace | reprel
+//   px <kc> <vc> <kind> <idx> <dstpairs> <b0pairs>   HashMap: Extract the idx-th pair of a one-bucket map, Insert(ExtractedPair&&)
+//   pairs are written key:value, lists comma separated
+template<int KC, int VC>
+static std::string run_pm(const std::string& op, long k, int64_t ks, int64_t vs, int64_t km, int64_t vm)
+{
+	typedef LE<KC> K; typedef LE<VC> V;
+	typedef momo::internal::MapKeyValueTraits<K, V, kit::MM> KVT;
+	kit::MM mm(1);
+	alignas(K) unsigned char kb[3][sizeof(K)]; alignas(V) unsigned char vb[3][sizeof(V)];
+	K* kp[3]; V* vp[3];
+	for (int i = 0; i < 3; ++i) { kp[i] = reinterpret_cast<K*>(kb[i]); vp[i] = reinterpret_cast<V*>(vb[i]); }
+	::new(kp[0]) K(ks); ::new(vp[0]) V(vs);
+	bool two = (op != "reloc");
+	if (two) { ::new(kp[1]) K(km); ::new(vp[1]) V(vm); }
+	kit::W().log.clear(); kit::W().logging = true;
+	kit::W().arm(-1, k, -1);
+	std::string st = "S";
+	try
+	{
+		if (op == "reloc") KVT::Relocate(&mm, *kp[0], *vp[0], kp[2], vp[2]);
+		else if (op == "replace") KVT::Replace(mm, *kp[0], *vp[0], *kp[1], *vp[1]);
+		else KVT::ReplaceRelocate(mm, *kp[0], *vp[0], *kp[1], *vp[1], kp[2], vp[2]);
+	}
+	catch (const kit::InjectedCopy&) { st = "E"; }
+	kit::W().disarm();
+	std::string tr = value_trace();
+	kit::W().logging = false;
+	auto live = [] (const void* p) { return kit::W().objs.count(p) != 0; };
+	auto showk = [&] (K* p) { return live(static_cast<kit::ElemT<KC>*>(p)) ? std::to_string(p->Value()) : std::string("raw"); };
+	auto showv = [&] (V* p) { return live(static_cast<kit::ElemT<VC>*>(p)) ? std::to_string(p->Value()) : std::string("raw"); };
+	std::string out = st;
+	const char* names[3] = { " src=", " mid=", " dst=" };
+	for (int i = 0; i < 3; ++i) out += names[i] + showk(kp[i]) + ":" + showv(vp[i]);
+	out += " " + tr;
+	for (int i = 0; i < 3; ++i)
+	{
+		if (live(static_cast<kit::ElemT<KC>*>(kp[i]))) kp[i]->~K();
+		if (live(static_cast<kit::ElemT<VC>*>(vp[i]))) vp[i]->~V();
+	}
+	std::string sum = kit::summary(); kit::W().errors.clear();
+	if (sum != "0 0 0") out += " LEAK(" + sum + ")";
+	return out;
+}
+
+struct HMapSettings : momo::HashMapSettings { static const momo::ExtraCheckMode extraCheckMode = momo::ExtraCheckMode::nothing; };
+static std::vector<std::pair<int64_t, int64_t>> pairs_of(const std::string& s)
+{
+	std::vector<std::pair<int64_t, int64_t>> r; if (s == "-") return r;
+	for (auto& t : split(s, ',')) { size_t c = t.find(':'); r.push_back({ std::stoll(t.substr(0, c)), std::stoll(t.substr(c + 1)) }); }
+	return r;
+}
+template<int KC, int VC>
+static std::string run_px(const std::vector<std::string>& w)
+{
+	typedef LE<KC> K; typedef LE<VC> V;
+	typedef momo::HashMap<K, V, momo::HashTraitsStd<K, KHash, KEq, momo::HashBucketOpen8>, kit::MM,
+		momo::HashMapKeyValueTraits<K, V, kit::MM>, HMapSettings> Map;
+	int kind = kind_of(w[3]);
+	size_t idx = size_t(std::stoul(w[4]));
+	auto dstv = pairs_of(w[5]), b0 = pairs_of(w[6]);
+	auto show_pairs = [] (std::vector<std::pair<int64_t, int64_t>> v, bool sorted)
+	{
+		if (sorted) std::sort(v.begin(), v.end());
+		if (v.empty()) return std::string("-");
+		std::string s; for (size_t i = 0; i < v.size(); ++i) { if (i) s += ","; s += std::to_string(v[i].first) + ":" + std::to_string(v[i].second); }
+		return s;
+	};
+	return enumerate(kind, [&] (int kd, long k) -> std::string
+	{
+		std::string out;
+		{
+			Map src(typename Map::HashTraits(8, KHash(kit::IDENT), KEq()), kit::MM(1));
+			Map dst(typename Map::HashTraits(8, KHash(kit::IDENT), KEq()), kit::MM(1));
+			src.Reserve(12); dst.Reserve(24);
+			for (auto& p : b0) src.Insert(K(p.first), V(p.second));
+			for (auto& p : dstv) dst.Insert(K(p.first), V(p.second));
+			auto& hs = src.mHashSet;
+			if (hs.mBuckets == nullptr || hs.mBuckets->GetNextBuckets() != nullptr) return "BAD-BUCKETS";
+			auto bucket0 = [&] ()
+			{
+				std::vector<std::pair<int64_t, int64_t>> v;
+				auto bounds = (*hs.mBuckets)[0].GetBounds(hs.mBuckets->GetBucketParams());
+				for (auto it = bounds.GetBegin(); it != bounds.GetEnd(); ++it) v.push_back({ it->GetKeyPtr()->Value(), it->GetValuePtr()->Value() });
+				return v;
+			};
+			if (bucket0().size() != b0.size() || src.GetCount() != b0.size()) return "BAD-LAYOUT " + show_pairs(bucket0(), false);
+			int64_t wantKey = bucket0()[idx].first;
+			typename Map::ConstIterator it = src.GetBegin();
+			while (it->key.Value() != wantKey) ++it;
+			kit::W().log.clear(); kit::W().logging = true;
+			arm_kind(kd, k);
+			std::string st = "S", hold = "none", ins = "?";
+			auto hshow = [] (typename Map::ExtractedPair& e) { return e.IsEmpty() ? std::string("none") : std::to_string(e.GetKey().Value()) + ":" + std::to_string(e.GetValue().Value()); };
+			try
+			{
+				typename Map::ExtractedPair ext = src.Extract(it);
+				try { auto res = dst.Insert(std::move(ext)); ins = res.inserted ? "ins" : "dup"; }
+				catch (...) { hold = hshow(ext); kit::W().ev("H"); throw; }
+				hold = hshow(ext); kit::W().ev("H");
+			}
+			catch (const std::bad_alloc&) { st = "Ea"; } catch (const kit::InjectedCopy&) { st = "Ec"; } catch (const kit::InjectedFunc&) { st = "Ef"; }
+			bool f = fired(kd);
+			kit::W().disarm();
+			std::string tr = value_trace();
+			kit::W().logging = false;
+			std::vector<std::pair<int64_t, int64_t>> dv; for (auto ref : dst) dv.push_back({ ref.key.Value(), ref.value.Value() });
+			out = st + " " + ins + " src=" + show_pairs(bucket0(), false) + " dst=" + show_pairs(dv, true) + " holder=" + hold + " " + tr;
+			g_fired = f;
+		}
+		return out;
+	});
+}
+template<int KC>
+static std::string dispatch_pair(const std::vector<std::string>& w)
+{
+	const std::string& vc = w[2];
+	if (w[0] == "pm")
+	{
+		long k = std::stol(w[4]); int64_t a = std::stoll(w[5]), b = std::stoll(w[6]), c = std::stoll(w[7]), d = std::stoll(w[8]);
+		if (vc == "NTM") return run_pm<KC, kit::NTM>(w[3], k, a, b, c, d);
+		if (vc == "SMH") return run_pm<KC, kit::SMH>(w[3], k, a, b, c, d);
+		if (vc == "THM") return run_pm<KC, kit::THM>(w[3], k, a, b, c, d);
+		return run_pm<KC, kit::CPY>(w[3], k, a, b, c, d);
+	}
+	// px: same category for key and value, or one of them NTM
+	if (vc == w[1]) return run_px<KC, KC>(w);
+	if (vc == "NTM") return run_px<KC, kit::NTM>(w);
+	return "UNSUPPORTED-PAIR";
+}
+
 template<int C>
 static std::string dispatch(const std::vector<std::string>& w)
 {
+	if (w[0] == "pm" || w[0] == "px") return dispatch_pair<C>(w);
 	if (w[0] == "om") return run_om<C>(w[2], std::stol(w[3]), std::stoll(w[4]), std::stoll(w[5]));
 	if (w[0] == "hm") return run_hm<C>(w);
-	if (w[0] == "tm" || w[0] == "lm") return run_tm<C>(w);
+	if (w[0] == "tm" || w[0] == "lm" || w[0] == "fm") return run_tm<C>(w);
 	if (w[0] == "xi") return run_xi<C>(w);
 	if (w[0] == "sh") return run_sh<C>(w);
 	return "?";
